@@ -11,6 +11,12 @@ use core::marker::PhantomData;
 use core::ops::Deref;
 //@@ INCLUDE _common/error_macros.rs
 verus! {
+// std combinator a refactor of the box accessors is likely to use (trusted: core::option)
+pub open spec fn spec_option_or<T>(a: Option<T>, b: Option<T>) -> Option<T> { if a is Some { a } else { b } }
+#[verifier::when_used_as_spec(spec_option_or)]
+pub assume_specification<T>[ Option::<T>::or ](a: Option<T>, b: Option<T>) -> (r: Option<T>)
+    ensures r == spec_option_or(a, b);
+
 global size_of usize == 8;
 
 //@@ PDFERROR
